@@ -10,10 +10,13 @@ DESIGN_REF = "6.12"
 RULE = ("same histories as C01 with epoch lengths 1-5, slash requests (downtime / double-sign, real and unknown validators) "
         "for infraction heights spread over every consumer height in most consumer blocks, relayed to the provider with "
         "scripted lag, plus forged slash packets whose id is absolute or relative to the provider's current id "
-        "(current-3 .. current+5, 0..12).  Non-trivial = a slash packet with a non-zero id was accepted by the provider "
+        "(current-3 .. current+5, 0..12), and consumer restarts from exported genesis in the middle of the history.  Non-trivial = a slash packet with a non-zero id was accepted by the provider "
         "while the consumer's id lagged the provider's; distinct = distinct (epoch length, ids carried, provider results)")
 ASSUMPTIONS = base.ASSUMPTIONS
 TRUSTED_BASE = base.TRUSTED_BASE + [
+    "slash packets reach the provider through the real IBC callback provider.AppModule.OnRecvPacket; the observation that "
+    "clauses 16-18 speak about is the ACKNOWLEDGEMENT it returns (result acknowledgement with one result byte vs error "
+    "acknowledgement), on a cached context written only for a successful acknowledgement as in IBC core",
     "the `infraction_height` event attribute is observed whenever HandleSlashPacket emits it (downtime, validator "
     "known, bonded, not tombstoned); otherwise only accept/error of OnRecvSlashPacket and the id -> height store are observed",
 ]
